@@ -20,6 +20,7 @@ import Flowjaxv.Driver.Planar
 import Flowjaxv.Driver.BnafLd
 import Flowjaxv.Driver.ElboAd
 import Flowjaxv.Driver.Flows
+import Flowjaxv.Driver.TrainGen
 /-!
 Model driver: `lake env lean --run Driver.lean < ops.txt`.  One op per line in, one line out
 (`ERR <msg>` when the model rejects the op).
@@ -85,6 +86,13 @@ def dispatch (line : String) : String :=
       | "nval" => nval args
       | "addbatch" => addbatch args
       | "fitdata" => fitdata args
+      | "gcfruit" => gcfruit args
+      | "gaddbatch" => gaddbatch args
+      | "gbatches" => gbatches args
+      | "gsplit" => gsplit args
+      | "gfit" => gfit args
+      | "gvi" => gvi args
+      | "gfitdata" => gfitdata args
       | "sig" => sig args
       | "parsesig" => parsesig args
       | "bshape" => bshape args
